@@ -1328,6 +1328,8 @@ def so_run(pid: str, tier: str, rule: str, assumptions: List[str]) -> int:
                    and sc["sched"] in ("eventloop", "eventloop_exit"))
         ck.fail({"engine": "scheduled_observer", "kind": sc["kind"], "sched": sc["sched"], "failure": w["failure"], "raise_at": sc["raise_at"],
                  "starved_by_foreign_fault_on_shared_event_loop": starved,
+                 # witness: how many different threads called on_* (and hence ensure_active) on this scheduled observer
+                 "calling_threads": len({e["th"] for e in tr if e["e"] == "call"}),
                  "scheduled_observer": so_id, "witness": w, "scenario": sc, "rejected_at": upto, "trace": tr, "schedules_with_this_trace": n,
                  "decisions": dec, "line_switch_points": lines})
     ck.note("language_level_only", lang_only)
